@@ -159,6 +159,71 @@ class Slotted(object):
     return ('slotted', self.w - a)
 
 
+class BadRepr(object):
+  """repr() of this object (and of its bound methods) fails."""
+
+  def __repr__(self):
+    raise RuntimeError('repr is not available')
+
+  def meth(self, a, b=2):
+    LOG.append(('BadRepr.meth', a, b))
+    r = 0
+    for i in range(b):
+      r += a
+    else:
+      r += 1
+    return ('badrepr', r)
+
+  def __call__(self, a, b=2):
+    LOG.append(('BadRepr.__call__', a, b))
+    if a > 0:
+      return ('badrepr-call', a + b)
+    return ('badrepr-call', a - b)
+
+
+def local_gen_caller(a, b=2):
+  LOG.append(('local_gen_caller', a, b))
+
+  def odd_upto(n):
+    i = 0
+    while i < n:
+      if i % 2:
+        yield i
+      i += 1
+
+  def chained(n):
+    yield from odd_upto(n)
+  return ('local_gen', list(odd_upto(a + 6)), list(chained(b + 3)))
+
+
+def _twice(f):
+  def wrapper(*a, **k):
+    LOG.append(('twice',))
+    return ('twice', f(*a, **k))
+  return wrapper
+
+
+def decorated_local_caller(a, b=2):
+  LOG.append(('decorated_local_caller', a, b))
+
+  @_twice
+  def inner(x):
+    if x > 0:
+      return x + b
+    return x - b
+
+  class Local(object):
+    def __init__(self, v):
+      self.v = v
+
+    @property
+    def doubled(self):
+      if self.v > 0:
+        return self.v * 2
+      return 0
+  return ('decorated_local', inner(a), Local(a).doubled)
+
+
 class Bag(list):
   """A container: falsy while empty."""
 
@@ -464,6 +529,10 @@ def build_pool(lane, which):
   add('metaclass_call2', 'callable_obj', U.WithMetaAndCall, fnname='__call__')
   add('shadowed_call', 'callable_obj', U.ShadowedCall(), fnname='__call__')
   add('manual_bound', 'function', types.MethodType(U.free_method, c1), fnname='free_method')
+  add('badrepr_method', 'unsupported', U.BadRepr().meth, fnname='meth')      # for/else: natural failure
+  add('badrepr_callable', 'callable_obj', U.BadRepr(), fnname='__call__')
+  add('local_gen_caller', 'unsupported', U.local_gen_caller, fnname='local_gen_caller')   # local generators: rejected
+  add('decorated_local_caller', 'function', U.decorated_local_caller, fnname='decorated_local_caller')
   add('falsy_bag_method', 'function', U.Bag().describe, fnname='describe')
   add('falsy_obj_method', 'function', U.Quiet().meth, fnname='meth')
   add('class', 'constructor', U.C, argsets='ctor')
@@ -717,7 +786,7 @@ def _gen_fault(rng, tier):
   return {'kind': 'disk-full', 'budget': rng.choice([0, 10, 200, 1000])}
 
 
-CONVERTIBLE = ['caller', 'caller', 'metaclass_call2', 'shadowed_call', 'fn', 'star_caller', 'nested2', 'raiser_passthrough', 'raiser', 'falsy_bag_method', 'falsy_obj_method', 'nt_method', 'metaclass_call', 'slotted_callable', 'manual_bound', 'fn', 'lam', 'nested', 'bound', 'unbound', 'cmeth', 'cmeth_inst', 'smeth', 'callable',
+CONVERTIBLE = ['caller', 'caller', 'badrepr_method', 'badrepr_callable', 'local_gen_caller', 'decorated_local_caller', 'metaclass_call2', 'shadowed_call', 'fn', 'star_caller', 'nested2', 'raiser_passthrough', 'raiser', 'falsy_bag_method', 'falsy_obj_method', 'nt_method', 'metaclass_call', 'slotted_callable', 'manual_bound', 'fn', 'lam', 'nested', 'bound', 'unbound', 'cmeth', 'cmeth_inst', 'smeth', 'callable',
                'decorated', 'caller', 'raiser', 'partial1', 'partial_nested', 'partial_method',
                'partial_chain', 'partial_chain3', 'partial_subclass',
                'mod:malty', 'mod:numpy_like', 'mod:reporting', 'mod:copyx', 'np_sub_overridden',
